@@ -231,11 +231,11 @@ func (ex *Exec) specArgsAssumptions(varKey, argsT, retT string) {
 		}
 		return ex.def("spec.param", "function.Parameter", "(mk.function.Parameter "+strings.Join(parts, " ")+")")
 	}
-	// the Type callback only gets what returnTypeForValues checked (types, nulls); unknown and marked
-	// arguments reach it. The Impl callback gets the full parameter contract.
+	// the Type callback only gets what returnTypeForValues checked (types, nulls) and unmarked (deep
+	// unmarking of arguments whose parameter lacks AllowMarked); unknown arguments reach it. The Impl callback gets the full parameter contract.
 	pred := "impl_arg_ok"
 	if retT == "" {
-		pred = "arg_ok"
+		pred = "type_arg_ok"
 	}
 	n := len(sl.params)
 	if sl.varParam == nil {
@@ -248,11 +248,16 @@ func (ex *Exec) specArgsAssumptions(varKey, argsT, retT string) {
 		pt := paramTerm(pl)
 		v := fmt.Sprintf("(val_at %s %d)", argsT, i)
 		ex.assume(fmt.Sprintf("(trig %d)", i))
-		ex.assume("(and (" + pred + " " + pt + " " + v + ") (wf_deep " + v + "))")
+		// the deep well-formedness of the arguments is assumed under the proof-group switch `wfargs`:
+		// an ensures clause tagged with another group (e.g. @lean) is proved without it (its member
+		// quantifiers are expensive and most functional clauses do not need them)
+		ex.assume("(" + pred + " " + pt + " " + v + ")")
+		ex.assume(implies(ex.useGroup("wfargs"), "(wf_deep "+v+")"))
 	}
 	if sl.varParam != nil {
 		pt := paramTerm(*sl.varParam)
-		ex.assume(fmt.Sprintf("(forall ((j Int)) (! (=> (and (trig j) (<= %d j) (< j (Slice.len %s))) (and (%s %s (val_at %s j)) (wf_deep (val_at %s j)))) :pattern ((trig j))))", n, argsT, pred, pt, argsT, argsT))
+		ex.assume(fmt.Sprintf("(forall ((j Int)) (! (=> (and (trig j) (<= %d j) (< j (Slice.len %s))) (%s %s (val_at %s j))) :pattern ((trig j))))", n, argsT, pred, pt, argsT))
+		ex.assume(implies(ex.useGroup("wfargs"), fmt.Sprintf("(forall ((j Int)) (! (=> (and (trig j) (<= %d j) (< j (Slice.len %s))) (wf_deep (val_at %s j))) :pattern ((trig j))))", n, argsT, argsT)))
 	}
 	if retT != "" {
 		ex.assume("(wf_ty " + retT + ")")
